@@ -70,6 +70,54 @@ func ZZ_C11_ServerHandshake() {
 	zzverif.Assert(e.handler.calls == 0 && e.handlersRequested() == 0, "handler-ran-during-handshake")
 }
 
+// ZZ_C11_CorruptFirstFrame: a well-formed connect request offering version 10 in which one byte (at
+// position P of the frame body) is replaced by an arbitrary other value. If the handshake still
+// completes, the frame the server accepted is, as a whole, a structurally valid connect request that
+// offers version 10; a damaged one is "anything else" and must be refused.
+func ZZ_C11_CorruptFirstFrame() {
+	w := pmpx.NewMessageWriter()
+	w.Code(pmpx.Code_ConnectRequest)
+	w1 := w.ConnectRequest()
+	w2 := w1.Versions()
+	w2.Add(pmpx.Version_Version10)
+	w2.Add(pmpx.Version(3))
+	zzverif.Assume(w2.End() == nil)
+	w3 := w1.Compression()
+	zzverif.Assume(w3.End() == nil)
+	zzverif.Assume(w1.End() == nil)
+	msg, err := w.Build()
+	zzverif.Assume(err == nil)
+	body := append([]byte{}, msg.Unwrap().Raw()...)
+	pos := zzverif.Param("P")
+	zzverif.Assume(pos < len(body))
+	v := zzverif.Byte()
+	zzverif.Assume(v != body[pos])
+	body[pos] = v
+	stream := append([]byte(ProtocolLine), zzFrame(body)...)
+	e := zzNewConn(false, stream, true)
+	e.nc.in.whole = true
+	st := e.c.handshake()
+	if st.OK() {
+		m, n, perr := pmpx.ParseMessage(body)
+		zzverif.Assert(perr == nil && n == len(body), "accepted-structurally-invalid-first-frame")
+		zzverif.Assert(m.Code() == pmpx.Code_ConnectRequest, "accepted-non-request-first-frame")
+		offers := false
+		vs := m.ConnectRequest().Versions()
+		for i := 0; i < vs.Len(); i++ {
+			if vs.Get(i) == pmpx.Version_Version10 {
+				offers = true
+			}
+		}
+		zzverif.Assert(offers, "accepted-without-common-version")
+		zzverif.Assert(e.shaken.set, "handshake-ok-but-not-negotiated")
+		zzverif.Reach("still-valid")
+	} else {
+		zzverif.Assert(!e.shaken.set, "failed-handshake-marked-negotiated")
+		zzverif.Reach("refused")
+	}
+	zzverif.Assert(e.handlersRequested() == 0, "handler-ran-during-handshake")
+}
+
 // ZZ_C11_ServerHandshakeLZ4 is excluded: negotiated compression starts lz4 streams (outside).
 
 // ZZ_C11_Dispatch: on a negotiated connection an arbitrary structurally valid frame is dispatched:
